@@ -1246,6 +1246,11 @@ pub struct LimitCase {
     /// None: a self-including file; Some(n): a chain of n distinct files.
     pub chain: Option<usize>,
     pub hash_seed: u64,
+    /// How the `\\input` stands in its file: 0 followed by more material on the line, 1 last on
+    /// the last line (the name is ended by the line end), 2 last in a file without final newline
+    /// (the name is ended by the end of the file: the parent is used up when the child starts).
+    #[serde(default)]
+    pub shape: u8,
 }
 
 fn eval_limit(case: &LimitCase, ev: &mut Evaluation) {
@@ -1253,13 +1258,15 @@ fn eval_limit(case: &LimitCase, ev: &mut Evaluation) {
     let main;
     match case.chain {
         None => {
-            files.push(("rec.tex".to_string(), b"\\advance\\count50 by 1 \\input rec \n".to_vec()));
+            let tail = ["\\input rec \n", "\\input rec\n", "\\input rec"][case.shape as usize % 3];
+            files.push(("rec.tex".to_string(), format!("\\advance\\count50 by 1 {tail}").into_bytes()));
             main = "\\input rec ".to_string();
         }
         Some(n) => {
             for i in 0..n {
                 let body = if i + 1 < n {
-                    format!("\\advance\\count50 by 1 \\input c{} %\n", i + 1)
+                    let tail = [" %\n", "\n", ""][case.shape as usize % 3];
+                    format!("\\advance\\count50 by 1 \\input c{}{tail}", i + 1)
                 } else {
                     "\\advance\\count50 by 1 END%\n".to_string()
                 };
@@ -1366,6 +1373,7 @@ impl Property for C19 {
                     Some(101 + rng.below(20))
                 },
                 hash_seed: rng.next_u64(),
+                shape: rng.below(3) as u8,
             }),
             x if x % 2 == 0 => Case::Inline(gen_inline(&mut rng)),
             x => Case::Streams(gen_streams(&mut rng, x % 4 == 3)),
